@@ -25,7 +25,7 @@ RULE = ("random programs P ::= skip | raise | use sym | seq | scope units P | at
         "index (existing symbol, symbol of an enclosing scope, clash with a prefixed symbol in either direction, "
         "invalid prefix, missing magnitude/dimensions, non-mapping definition, Quantity whose evaluation raises); "
         "DIP texts with $unit definitions that parse and that fail, optionally inside an outer scope, and on every run "
-        ">=3 texts for each of 22 positions in which a DIP call site consumes a unit (expression operands incl. references "
+        ">=3 texts for each of 40 positions in which a DIP call site consumes a unit, directly or only through the unit of a referenced / injected / imported node (expression operands incl. references "
         "and function arguments, the unit of the node holding a numerical expression, option lines and !options arrays, "
         "!condition and @case literals, modification and definition units, chained $unit) with the value oracle "
         "[name] = value x magnitude of its definition (accept and reject variants); "
@@ -302,10 +302,23 @@ class Worker:
                 trace.append(["close-end", extra(), [self.tyname(t) for t in self.S.UNIT_TYPES]])
 
         def body():
-            with DIP() as p:
-                p.add_string(req["text"])
-                env = p.parse()
-                return env.data(Format.TUPLE)
+            import shutil
+            import tempfile
+            text = req["text"]
+            tmp = None
+            if req.get("files"):
+                tmp = tempfile.mkdtemp(prefix="c09dip_")
+                for name, content in req["files"].items():
+                    Path(tmp, name).write_text(content)
+                text = text.replace("@DIR@", tmp)
+            try:
+                with DIP() as p:
+                    p.add_string(text)
+                    env = p.parse()
+                    return env.data(Format.TUPLE)
+            finally:
+                if tmp:
+                    shutil.rmtree(tmp, ignore_errors=True)
         res = {}
         outer = req.get("outer")
         inside = []
@@ -492,7 +505,7 @@ class Gen:
         elif x < 0.6:
             d["definition"] = {"ty": r.choice(TYPE_POOL)}
         elif x < 0.68:
-            d["definition"] = {"ty": "StandardUnitType"}
+            d["definition"] = {"ty": r.choice(["StandardUnitType", "TemperatureUnitType", "LogarithmicUnitType"])}
         if r.random() < 0.3:
             d["name"] = r.choice(["my unit", "x", ""])
         x = r.random()
@@ -920,7 +933,14 @@ POSITION_MODES = ["expr-operand", "expr-operand-literal", "expr-operand-fn", "ex
                   "expr-result-std-operands", "expr-result-int", "expr-result-other-custom", "option-lines",
                   "option-lines-reject", "options-short", "options-short-reject", "options-custom-node",
                   "cond-true", "cond-false", "cond-custom-node", "case-true", "case-false",
-                  "mod-to-custom", "mod-from-custom", "mod-int", "def-chain"]
+                  "mod-to-custom", "mod-from-custom", "mod-int", "def-chain",
+                  # INDIRECT positions: the custom unit reaches the call site only through the unit of a referenced
+                  # node (the expression / option / condition text itself spells standard units only)
+                  "ind-expr-ref", "ind-expr-ref-scale", "ind-expr-two-refs",
+                  "ind-bool-true", "ind-bool-false", "ind-bool-two-refs",
+                  "ind-cond-true", "ind-cond-false", "ind-cond-ref-true", "ind-cond-ref-false",
+                  "ind-case-true", "ind-case-false", "ind-option-lines", "ind-option-lines-reject",
+                  "ind-inject-mod", "ind-unit-from-node", "ind-import-units", "ind-import-unit-by-name"]
 
 
 def gen_dip_positions(rng, mode=None):
@@ -948,7 +968,7 @@ def gen_dip_positions(rng, mode=None):
 
     def build(c0, m0, c1, m1):
         lines = list(defs)
-        expect, plain, reject = {}, {}, False
+        expect, plain, reject, files = {}, {}, False, {}
         if mode == "expr-operand":
             lines += ["p float = %d %s" % (P, c0), "e float = ('{?p} + %d %s') m" % (K, c0)]
             expect["e"] = [(P + K) * m0, "m"]
@@ -1012,14 +1032,70 @@ def gen_dip_positions(rng, mode=None):
             lines += ["$unit ch = %d %s" % (J, c0), "q float = 1 m", "q = %d [ch]" % K, "r float = %d [ch]" % K, "r = %d %s" % (J, c0)]
             expect["q"] = [K * J * m0, "m"]
             expect["r"] = [1, "[ch]"]
+        elif mode == "ind-expr-ref":
+            lines += ["a float = %d %s" % (P, c0), "e float = ('{?a} + %d km') m" % K]
+            expect["e"] = [P * m0 + K * 1000.0, "m"]
+        elif mode == "ind-expr-ref-scale":
+            lines += ["a float = %d %s" % (P, c0), "e float = ('{?a} * %d') km" % J]
+            expect["e"] = [P * m0 * J / 1000.0, "km"]
+        elif mode == "ind-expr-two-refs":
+            lines += ["a float = %d %s" % (P, c0), "b float = %d %s" % (K, c1), "e float = ('{?a} + {?b}') m"]
+            expect["e"] = [P * m0 + K * m1, "m"]
+        elif mode in ("ind-bool-true", "ind-bool-false"):
+            lines += ["a float = %d %s" % (P, c0),
+                      "t bool = ('{?a} == %s m')" % _num(P * m0) if mode == "ind-bool-true"
+                      else "t bool = ('{?a} > %s m')" % _num(P * m0 * 4)]
+            plain["t"] = "True" if mode == "ind-bool-true" else "False"
+        elif mode == "ind-bool-two-refs":
+            lines += ["a float = %d %s" % (P, c0), "b float = %s %s" % (_num(P * m0 * 4 / m1), c1), "t bool = ('{?a} < {?b}')"]
+            plain["t"] = "True"
+        elif mode in ("ind-cond-true", "ind-cond-false"):
+            lim = P * m0 * (4 if mode == "ind-cond-true" else 0.25)
+            lines += ["a float = %d %s" % (P, c0), "  !condition ('{?} < %s m')" % _num(lim)]
+            reject = mode == "ind-cond-false"
+            expect["a"] = [P, c0]
+        elif mode in ("ind-cond-ref-true", "ind-cond-ref-false"):
+            val = P * m0 * (0.25 if mode == "ind-cond-ref-true" else 4)
+            lines += ["a float = %d %s" % (P, c0), "d float = %s m" % _num(val), "  !condition ('{?} < {?a}')"]
+            reject = mode == "ind-cond-ref-false"
+            expect["d"] = [val, "m"]
+        elif mode in ("ind-case-true", "ind-case-false"):
+            lim = P * m0 * (0.25 if mode == "ind-case-true" else 4)
+            lines += ["a float = %d %s" % (P, c0), "@case ('{?a} > %s m')" % _num(lim), "  z int = 1", "@else", "  z int = 2", "@end"]
+            plain["z"] = "1" if mode == "ind-case-true" else "2"
+        elif mode in ("ind-option-lines", "ind-option-lines-reject"):
+            opt = K * m0 if mode == "ind-option-lines" else K * m0 * 1.5
+            lines += ["o float = %d %s" % (K, c0), "  = %s m" % _num(K * m0 * 8), "  = %s m" % _num(opt)]
+            reject = mode.endswith("reject")
+            expect["o"] = [K, c0]
+        elif mode == "ind-inject-mod":
+            lines += ["a float = %d %s" % (P, c0), "b float = 1 km", "b = {?a}"]
+            expect["b"] = [P * m0 / 1000.0, "km"]
+        elif mode == "ind-unit-from-node":
+            lines += ["a float = %d %s" % (P, c0), "$unit via = {?a}", "q float = 1 km", "q = %d [via]" % K]
+            expect["q"] = [K * P * m0 / 1000.0, "km"]
+        elif mode in ("ind-import-units", "ind-import-unit-by-name"):
+            # the units are defined in a remote DIP file and imported; nodes of the file carry them
+            files["inc.dip"] = "\n".join(defs + ["w float = %d %s" % (P, c0)]) + "\n"
+            lines[:] = ["$source inc = @DIR@/inc.dip",
+                        "$unit {inc?*}" if mode == "ind-import-units" else "$unit {inc?%s}" % n0,
+                        "h {inc?w}", "q float = 1 km", "q = {?h.w}", "t bool = ('{?h.w} == %s m')" % _num(P * m0)]
+            if c0.startswith("["):
+                lines.insert(3, "r float = 1 km")
+                lines.insert(4, "r = %d %s" % (K, c0))
+                expect["r"] = [K * m0 / 1000.0, "km"]
+            expect["q"] = [P * m0 / 1000.0, "km"]
+            expect["h.w"] = [P, c0]
+            plain["t"] = "True"
         if filler:                         # something unrelated in between, so positions vary
             lines.insert(2, "w float = 7 s")
         return {"text": "\n".join(lines) + "\n", "expect_ok": not reject, "expect_reject": reject,
-                "expect": {} if reject else expect, "expect_plain": {} if reject else plain}
+                "expect": {} if reject else expect, "expect_plain": {} if reject else plain,
+                "files": files or None}
 
     case = build("[%s]" % n0, v0 * f0, "[%s]" % n1, v1 * f1)
     case["control"] = build(u0, f0, u1, f1)
-    case["symbols"] = symbols + (["[ch]"] if mode == "def-chain" else [])
+    case["symbols"] = symbols + (["[ch]"] if mode == "def-chain" else []) + (["[via]"] if mode == "ind-unit-from-node" else [])
     case["mode"] = "pos:" + mode
     if rng.random() < 0.2:
         case["outer"] = [["qq", {"dict": {"magnitude": "5", "dimensions": json.dumps(DIMS[0]),
@@ -1104,7 +1180,8 @@ def dip_stream(ctx, worker, g0, count):
     seen_sig = set()
     traced = []
     for c in cases:
-        r = worker.ask({"kind": "dip", "text": c["text"], "symbols": c.get("symbols", []), "outer": c.get("outer")})
+        r = worker.ask({"kind": "dip", "text": c["text"], "symbols": c.get("symbols", []), "outer": c.get("outer"),
+                        "files": c.get("files")})
         ctx.case(["dip", c["text"], bool(c.get("outer"))], "$unit" in c["text"],
                  {"dip": c["text"], "outer": bool(c.get("outer"))})
         ctx.count("dip.mode." + c.get("mode", "corpus"))
@@ -1115,6 +1192,7 @@ def dip_stream(ctx, worker, g0, count):
         ctx.count("dip.parse_ok" if r["ok"] else "dip.parse_err")
         ctx.count("dip.scopes_opened", sum(1 for t in r["trace"] if t[0] == "init"))
         replay = {"stream": "dip", "text": c["text"], "outer": c.get("outer"), "symbols": c.get("symbols", []),
+                  "files": c.get("files"),
                   "impl_ok": r["ok"], "impl_final": r["final"], "clean": clean}
         sigs = []
         if r["final"] != clean or not r["deep_same"]:
@@ -1129,9 +1207,11 @@ def dip_stream(ctx, worker, g0, count):
         if dev is not None and c.get("control"):
             # the same text with the standard unit in place of the custom unit: a deviation it shares is not
             # about custom units (C14-C18 judge it)
-            rc = worker.ask({"kind": "dip", "text": c["control"]["text"], "symbols": [], "outer": c.get("outer")})
+            rc = worker.ask({"kind": "dip", "text": c["control"]["text"], "symbols": [], "outer": c.get("outer"),
+                             "files": c["control"].get("files")})
             if "error" in rc or usable_deviation(c["control"], rc, rel_close) is not None:
                 ctx.count("dip.control_also_deviates")
+                ctx.count("dip.control_also_deviates." + pos)
                 if not any(n.startswith("C09 control") for n in ctx.notes):
                     ctx.notes.append("C09 control: a DIP text deviates with the standard unit in place of the custom unit "
                                      "too (not judged here): %r" % c["control"]["text"][:200])
@@ -1146,7 +1226,7 @@ def dip_stream(ctx, worker, g0, count):
             # minimal replay: drop lines of the text while the same deviation remains
             def fails(lines, sig=sig, c=c):
                 rr = worker.ask({"kind": "dip", "text": "\n".join(lines) + "\n", "symbols": c.get("symbols", []),
-                                 "outer": c.get("outer")})
+                                 "outer": c.get("outer"), "files": c.get("files")})
                 if "error" in rr:
                     return False
                 if sig.startswith("leak:dip"):
@@ -1227,7 +1307,8 @@ def replay(ctx, payload):
         clean = clean_sum(worker.g0)
         if payload.get("replay", {}).get("stream") == "dip":
             rp = payload["replay"]
-            r = worker.ask({"kind": "dip", "text": rp["text"], "symbols": rp.get("symbols", []), "outer": rp.get("outer")})
+            r = worker.ask({"kind": "dip", "text": rp["text"], "symbols": rp.get("symbols", []), "outer": rp.get("outer"),
+                            "files": rp.get("files")})
             print(json.dumps(r, indent=1)[:3000])
             bad = r.get("final") != clean or not r.get("deep_same", True) or r.get("outside_known")
         else:
